@@ -462,6 +462,14 @@ class Check:
             "violations": len(self.violations),
         }
         ev["coverage"]["known_findings_hit"] = [k["id"] for k in self.known_hits]
+        # schema hygiene: exhaustive is a boolean, counts are integers
+        ex = self.coverage.get("exhaustive")
+        if ex is not None and not isinstance(ex, bool):
+            self.coverage["exhaustive_scope"] = ex
+            self.coverage["exhaustive"] = bool(ex)
+        for key in ("evaluations", "distinct_nontrivial", "traces_validated_against_impl", "disagreements_checked", "obligations", "discharged"):
+            if key in self.coverage and not isinstance(self.coverage[key], int):
+                self.coverage[key] = int(self.coverage[key])
         if not self.coverage["samples"]:
             self.coverage["samples"] = ["(no cases run)"]
         tmp = os.path.join(VERIF, "evidence", ".%s.json.tmp" % self.prop_id)
